@@ -3,7 +3,10 @@ package main
 import (
 	"crypto/sha256"
 	"fmt"
+	"go/ast"
+	"go/parser"
 	"go/token"
+	"strconv"
 	"go/types"
 	"os"
 	"path/filepath"
@@ -27,6 +30,8 @@ type Program struct {
 	Repo   string
 	// file hashes of non-contract files (tag on) for the tag-diff check
 	Files map[string]string
+	// ghost lemma functions dropped because they no longer type-check against the code
+	Dropped []string
 }
 
 func shortPkg(path string) string {
@@ -90,25 +95,73 @@ func loadProgram(repo string, tags string) (*Program, error) {
 	if tags != "" {
 		cfg.BuildFlags = []string{"-tags", tags}
 	}
-	pkgs, err := packages.Load(cfg, "./...")
-	if err != nil {
-		return nil, err
-	}
-	nerr := 0
-	packages.Visit(pkgs, nil, func(p *packages.Package) {
-		for _, e := range p.Errors {
-			if strings.HasPrefix(p.PkgPath, modPath) {
-				fmt.Fprintf(os.Stderr, "load error: %s: %v\n", p.PkgPath, e)
-				nerr++
+	var pkgs []*packages.Package
+	var dropped []string
+	for attempt := 0; ; attempt++ {
+		var err error
+		pkgs, err = packages.Load(cfg, "./...")
+		if err != nil {
+			return nil, err
+		}
+		var errs []packages.Error
+		packages.Visit(pkgs, nil, func(p *packages.Package) {
+			for _, e := range p.Errors {
+				if strings.HasPrefix(p.PkgPath, modPath) {
+					errs = append(errs, e)
+				}
+			}
+		})
+		if len(errs) == 0 {
+			break
+		}
+		// A ghost lemma function of a contract file that no longer type-checks against the code (a
+		// signature it calls has changed) is dropped and reported; the contracts themselves are comments
+		// and stay. Any other error is fatal.
+		progress := false
+		if attempt < 4 {
+			for _, e := range errs {
+				file, line := errPos(e.Pos)
+				if !strings.HasSuffix(file, "zz_contracts_verif.go") {
+					continue
+				}
+				src, ok := cfg.Overlay[file]
+				if !ok {
+					b, rerr := os.ReadFile(file)
+					if rerr != nil {
+						continue
+					}
+					src = b
+				}
+				var name string
+				var nsrc []byte
+				if strings.Contains(e.Msg, "imported and not used") {
+					name, nsrc = "", blankLine(src, line)
+				} else {
+					name, nsrc = blankFuncAt(file, src, line)
+					if name == "" {
+						continue
+					}
+				}
+				if cfg.Overlay == nil {
+					cfg.Overlay = map[string][]byte{}
+				}
+				cfg.Overlay[file] = nsrc
+				if name != "" {
+					dropped = append(dropped, name)
+				}
+				progress = true
 			}
 		}
-	})
-	if nerr > 0 {
-		return nil, fmt.Errorf("%d load errors in repository packages", nerr)
+		if !progress {
+			for _, e := range errs {
+				fmt.Fprintf(os.Stderr, "load error: %v\n", e)
+			}
+			return nil, fmt.Errorf("%d load errors in repository packages", len(errs))
+		}
 	}
 	prog, spkgs := ssautil.AllPackages(pkgs, ssa.InstantiateGenerics|ssa.GlobalDebug)
 	prog.Build()
-	P := &Program{Pkgs: pkgs, Prog: prog, SSAPkg: map[string]*ssa.Package{}, Funcs: map[string]*ssa.Function{}, Repo: repo, Files: map[string]string{}}
+	P := &Program{Dropped: dropped, Pkgs: pkgs, Prog: prog, SSAPkg: map[string]*ssa.Package{}, Funcs: map[string]*ssa.Function{}, Repo: repo, Files: map[string]string{}}
 	if len(pkgs) > 0 {
 		P.Fset = pkgs[0].Fset
 	}
@@ -219,4 +272,57 @@ func (E *Engine) scanGlobals() {
 	for g := range E.mutableGlobals {
 		delete(E.sentinel, g)
 	}
+}
+
+func errPos(pos string) (string, int) {
+	// file:line:col
+	parts := strings.Split(pos, ":")
+	if len(parts) < 2 {
+		return pos, 0
+	}
+	n, _ := strconv.Atoi(parts[1])
+	return parts[0], n
+}
+
+// blankFuncAt replaces the top-level function declaration covering the given line by blanks (newlines
+// are kept, so positions of everything else are unchanged) and returns its name
+func blankFuncAt(file string, src []byte, line int) (string, []byte) {
+	fs := token.NewFileSet()
+	f, err := parser.ParseFile(fs, file, src, parser.ParseComments|parser.SkipObjectResolution)
+	if err != nil {
+		return "", nil
+	}
+	for _, d := range f.Decls {
+		fd, ok := d.(*ast.FuncDecl)
+		if !ok {
+			continue
+		}
+		a, b := fs.Position(fd.Pos()), fs.Position(fd.End())
+		if line < a.Line || line > b.Line {
+			continue
+		}
+		out := append([]byte{}, src...)
+		for i := a.Offset; i < b.Offset && i < len(out); i++ {
+			if out[i] != '\n' {
+				out[i] = ' '
+			}
+		}
+		return fd.Name.Name, out
+	}
+	return "", nil
+}
+
+func blankLine(src []byte, line int) []byte {
+	out := append([]byte{}, src...)
+	n := 1
+	for i := range out {
+		if out[i] == '\n' {
+			n++
+			continue
+		}
+		if n == line {
+			out[i] = ' '
+		}
+	}
+	return out
 }
